@@ -18,7 +18,9 @@ REPLAY_KIND = 'input'
 EXHAUSTIVE = {'quick': False, 'thorough': False}
 IMPL_TIMEOUT = 1500
 RULE = ('programs: 1..3 threads, each running one hub.doInTransaction(body) on a FILE-backed sqlite database (timeout 0); body = 0..5 steps '
-        'create / update a column of row id / delete row id (ids inside and outside the table) and optionally a raise; for every seeded body '
+        'create / update a column of row id / delete row id (fetched inside the body; ids inside and outside the table) / assignment to and '
+        'destroySelf of instances loaded BEFORE the call / class-level deleteMany, mixed or with nothing created or fetched inside the body, '
+        'and optionally a raise; for every seeded body '
         'also the variants raising after every prefix (including none and all); hub configurations: thread-level binding (every thread its own '
         'thread connection, real threading.Thread objects released one body step at a time by the controller, random interleavings), '
         'process-level binding (one caller, other threads only asked what the hub holds), BOTH (thread connections and a different process '
@@ -99,12 +101,25 @@ def hubcfg(case):
 VALS = [None, 0, 1, 2, 3, 4, 5]
 
 
-def gen_body(rng, nrows, maxlen=5, allow_fail=True):
+def gen_body(rng, nrows, maxlen=5, allow_fail=True, held_only=None):
+    """held_only: the body works only on instances loaded before the call and with class-level deletes -- nothing is created
+    or fetched through the transaction (its cache stays empty); None = decide here"""
     n = rng.randint(0, maxlen)
     body = []
+    if held_only is None:
+        held_only = nrows > 0 and rng.random() < 0.2
+    p_held = 1.0 if held_only else (0.3 if nrows > 0 else 0.0)
     for _ in range(n):
         r = rng.random()
-        if r < 0.35:
+        if rng.random() < p_held:
+            i = rng.randint(1, nrows) if nrows > 0 else 1
+            if r < 0.55 and nrows > 0:
+                body.append(['hupdate', i, rng.randint(0, 1), rng.choice(VALS)])
+            elif r < 0.8 and nrows > 0:
+                body.append(['hdestroy', i])
+            else:
+                body.append(['deletemany', rng.randint(1, nrows + 1)])
+        elif r < 0.35:
             body.append(['create', rng.choice(VALS), rng.choice(VALS)])
         elif r < 0.75:
             body.append(['update', rng.randint(1, max(1, nrows + 1)) if rng.random() < 0.85 else rng.randint(nrows + 2, nrows + 6),
@@ -236,14 +251,23 @@ def corpus():
     out.append({'mode': 'thread', 'rows': rows, 'cache': False, 'poison': [2],
                 'bodies': [[['update', 1, 0, 5], ['create', 3, 3]]], 'sched': [0, 0, 0, 0]})
     out += prefix_variants(rows, [['create', 3, 3], ['update', 1, 0, 9], ['delete', 2], ['update', 3, 1, None]])
+    # bodies that create and fetch NOTHING through the transaction: assignments to / destroySelf of instances loaded before the
+    # call, class-level deletes (seeded defect c08_rollback_skipped_without_subcaches: the transaction's cache stays empty)
+    out += prefix_variants(rows, [['hupdate', 1, 0, 60], ['hdestroy', 2], ['deletemany', 1]])
+    out.append({'mode': 'thread', 'rows': rows, 'cache': True, 'poison': [None, None],
+                'bodies': [[['hupdate', 1, 0, 7], ['fail', 0]], [['deletemany', 2], ['hupdate', 1, 1, 3]]], 'sched': [0, 1, 0, 1, 0, 1, 1]})
+    out.append({'mode': 'process', 'rows': rows, 'cache': True, 'poison': [None, None],
+                'bodies': [[['update', 1, 0, 5], ['hdestroy', 1], ['update', 1, 1, 2], ['hupdate', 2, 0, 8], ['fail', 2]], []],
+                'sched': [0] * 7})
     return out
 
 
 def generate(rng, tier):
     n = 1200 if tier == 'quick' else 12000
     out = [gen_case(rng) for _ in range(n)]
-    for _ in range(40 if tier == 'quick' else 400):
-        out += prefix_variants(gen_rows(rng), gen_body(rng, 3, allow_fail=False))
+    for k in range(40 if tier == 'quick' else 400):
+        rows = gen_rows(rng)
+        out += prefix_variants(rows, gen_body(rng, len(rows), allow_fail=False, held_only=(k % 3 == 0 and len(rows) > 0)))
     return out
 
 
@@ -367,6 +391,13 @@ class Worker(threading.Thread):
                     self.keep.append(o)
                     o.destroySelf()
                     del o
+                elif st[0] == 'hupdate':
+                    # an instance loaded before the call: its statement goes through the hub, i.e. through the transaction
+                    setattr(self.held[st[1]], COLS[st[2]], st[3])
+                elif st[0] == 'hdestroy':
+                    self.held[st[1]].destroySelf()
+                elif st[0] == 'deletemany':
+                    cls.deleteMany(cls.q.id == st[1])
                 elif st[0] == 'fail':
                     raise self.sh['errors'][st[1]]
             except Exception as e:  # noqa
@@ -383,6 +414,10 @@ class Worker(threading.Thread):
         if self.sh['slots'][self.idx] is not None:
             hub.threadConnection = self.sh['conns'][self.sh['slots'][self.idx]]
         self.poison()
+        # what the program loaded before it calls doInTransaction: one instance per row, through the hub
+        self.held = {}
+        for i in range(1, self.sh['nrows'] + 1):
+            self.held[i] = cls.get(i)
         self.rep.put('ready')
         while True:
             c = self.cmd.get()
@@ -445,7 +480,7 @@ def run_case(case, workdir):
     if proc is not None:
         hub.processConnection = conns[proc]
     shared = {'cls': cls, 'hub': hub, 'conns': conns, 'bodies': case['bodies'], 'mode': case['mode'], 'fn': fn,
-              'slots': slots, 'proc': proc,
+              'slots': slots, 'proc': proc, 'nrows': len(case['rows']),
               'poison': case.get('poison') or [None] * n,
               'errors': [UserErr('e%d' % i) for i in range(4)], 'workers': []}
     workers = [Worker(i, shared) for i in range(n)]
@@ -528,6 +563,12 @@ def cstep(s):
         return '(BUpdate %s %d%%nat %s)' % (z(s[1]), s[2], cval(s[3]))
     if s[0] == 'delete':
         return '(BDelete %s)' % z(s[1])
+    if s[0] == 'hupdate':
+        return '(BWrite %s %d%%nat %s)' % (z(s[1]), s[2], cval(s[3]))
+    if s[0] == 'hdestroy':
+        return '(BErase %s)' % z(s[1])
+    if s[0] == 'deletemany':
+        return '(BDeleteMany %s)' % z(s[1])
     return '(BFail %d%%nat)' % s[1]
 
 
@@ -590,10 +631,10 @@ def replay_writes(table, body_prefix):
             rows[nxt] = [s[1], s[2]]
             created.append(nxt)
             nxt += 1
-        elif s[0] == 'update':
+        elif s[0] in ('update', 'hupdate'):
             if s[1] in rows:
                 rows[s[1]][s[2]] = s[3]
-        elif s[0] == 'delete':
+        elif s[0] in ('delete', 'hdestroy', 'deletemany'):
             rows.pop(s[1], None)
     return [[[i, rows[i]] for i in sorted(rows)], nxt], created
 
